@@ -34,6 +34,9 @@ func genC10(c *Ctx) {
 			alphabet := []string{"S:" + good, "T", "E", "B:0:" + vec, "B:2:0203", "B:7:00", "B:-1:00", "P:0:" + share, "P:1:" + hx([]byte{0, 1, 2}), "P:3:00", "F:0", "F:5", "F:-1"}
 			if role == "dealer" {
 				alphabet = append(alphabet, "S:"+short, "B:1:"+hx(complaintMsg(0)))
+			} else {
+				third := 3 - me // the participant that is neither the dealer nor this one
+				alphabet = append(alphabet, fmt.Sprintf("B:%d:%s", third, hx(complaintMsg(0))), "B:0:"+hx(answerMsg(third, p.eval(third+1))))
 			}
 			run := func(class string, seq []string) {
 				d, err := newDkgNode(proto, n, t, me, dealer)
@@ -104,6 +107,39 @@ func genC10(c *Ctx) {
 					run("long-refused/ends-too-early", cat(pre, []string{"T"}, rep("E", k), []string{"T", "T", "E"}))
 					run("long-refused/calls-before-start", cat(rep("T", k), rep("E", k), pre, []string{"T", "T", "E"}))
 					run("long-refused/bad-index", cat(pre, rep("F:-1", k), rep("B:7:00", k), []string{"T", "T", "T", "E"}))
+				}
+			}
+			// every way an instance can come to its End - accepted dealing, each reason for failure met at each stage
+			// (at the vector, at the share, at a complaint nobody answered, at a wrong answer, at too many complaints, at
+			// a forced disqualification) - and then the same tail of calls: whatever End returned, the instance is over
+			if role == "other" {
+				third := 3 - me
+				cmpl := fmt.Sprintf("B:%d:%s", third, hx(complaintMsg(0)))
+				goodAns := "B:0:" + hx(answerMsg(third, p.eval(third+1)))
+				badAns := "B:0:" + hx(answerMsg(third, c.randScalar()))
+				badVec := "B:0:" + vec[:len(vec)-2]
+				badShare := "P:0:" + hx(shareMsg(c.randScalar()))
+				ownAns := "B:0:" + hx(answerMsg(me, p.eval(me+1)))
+				tail := []string{"E", "T", "B:0:" + vec, "P:0:" + share, cmpl, goodAns, "F:0", "E"}
+				st := "S:" + good
+				for hi, h := range [][]string{
+					{st, "B:0:" + vec, "P:0:" + share, "T", "T", "E"},
+					{st, "B:0:" + vec, "P:0:" + share, cmpl, "T", "T", "E"},
+					{st, "B:0:" + vec, "P:0:" + share, "T", cmpl, "T", "E"},
+					{st, "B:0:" + vec, "P:0:" + share, cmpl, "T", goodAns, "T", "E"},
+					{st, "B:0:" + vec, "P:0:" + share, cmpl, "T", badAns, "T", "E"},
+					{st, "B:0:" + vec, "P:0:" + share, "T", goodAns, cmpl, "T", "E"},
+					{st, "B:0:" + vec, "T", "T", "E"},
+					{st, "B:0:" + vec, "T", ownAns, "T", "E"},
+					{st, "B:0:" + vec, badShare, "T", ownAns, "T", "E"},
+					{st, "B:0:" + vec, badShare, "T", "T", "E"},
+					{st, badVec, "P:0:" + share, "T", "T", "E"},
+					{st, "P:0:" + share, "T", "T", "E"},
+					{st, "T", "T", "E"},
+					{st, "B:0:" + vec, "P:0:" + share, "F:0", "T", "T", "E"},
+					{st, "B:0:" + vec, "P:0:" + share, cmpl, "T", "F:0", "T", "E"},
+				} {
+					run(fmt.Sprintf("end-paths/%d", hi), append(append([]string{}, h...), tail...))
 				}
 			}
 			// random longer sequences biased towards the legal order
